@@ -5,7 +5,7 @@
 // in its hasher parameter (listed in the trusted base).
 pub type StubDigest = crate::hash::ByteDigest<8>;
 
-#[derive(Debug, PartialEq, Eq)]
+#[derive(Debug, Clone, PartialEq, Eq)]
 pub struct StubHasher;
 
 pub fn sd(x: u64) -> StubDigest {
